@@ -7,7 +7,7 @@ from props import engine_common as ec, engine_prove
 MODULES = ['IRModel.Props.C05']
 
 
-def capture(dec, protos, params, variants=None, bits_of=None):
+def capture(dec, protos, params, variants=None, bits_of=None, rc=0):
     """real encode() with every _build_packet call recorded: list of (args, kwargs, result).
     With `variants` (a list), every single-bit substitution of every keyword field is rebuilt AT CALL TIME (so that
     protocols that switch class tables inside encode() are corrupted with the tables in force): (call index, what, frame)"""
@@ -41,7 +41,7 @@ def capture(dec, protos, params, variants=None, bits_of=None):
         return res
     cls._build_packet = classmethod(rec)
     try:
-        code = protos.encode(dec, params)
+        code = protos.encode(dec, params, repeat_count=rc) if rc else protos.encode(dec, params)
     finally:
         if orig is None:
             del cls._build_packet
@@ -81,16 +81,23 @@ def search(ctx, focus=(), deep=1):
         plist = [f['witness']['input']['params'] for f in known if f.get('site') == d.name and isinstance(f.get('witness', {}).get('input'), dict) and 'params' in f['witness']['input']]
         for _ in range(nparams):
             plist.append(protos.sample_params(d, r))
-        for p in plist:
+        seen_first = set()
+        for p, rc in [(p_, rc_) for p_ in plist for rc_ in (0, 1)]:
             bits_of = (lambda w: range(w)) if (ctx.thorough or d.name in focus) else (lambda w: range(w) if w <= 4 else sorted(set([0, w - 1, r.randrange(w), r.randrange(w)])))
             vars_ = []
             try:
-                code, calls = capture(d, protos, p, vars_, bits_of)
+                code, calls = capture(d, protos, p, vars_, bits_of, rc=rc)
                 frames = protos.frames(code)
             except Exception:
                 continue
             if not calls or not frames:
                 continue
+            # rc = 1: the frames of a HELD key (toggle protocols send a different first frame while the key is down, and only
+            # that one leaves a held code behind); skipped when the sequence starts like the single-press one
+            fkey = (tuple(sorted(p.items())), tuple(frames[0]))
+            if fkey in seen_first:
+                continue
+            seen_first.add(fkey)
             # the first frame GROUP: frames fed in order to a fresh decoder until one yields a code
             probe = protos.fresh(d)
             group = []
